@@ -243,6 +243,13 @@ def main():
                             "frames": [f[:4] for f in c["frames"]], "ls": c["ls"], "sqlite_db": c["sq"]["db"]})
         # verdicts: smallest page size first (replay files carry the bytes)
         bad.sort(key=lambda b: (b[0]["ps"], b[0]["t"]))
+        seen = {}                       # one witness per distinct set of violated invariants first
+        ranked = []
+        for b in bad:
+            k = tuple(sorted(b[1]))
+            ranked.append((seen.get(k, 0), b))
+            seen[k] = seen.get(k, 0) + 1
+        bad = [b for _, b in sorted(ranked, key=lambda x: (x[0], x[1][0]["ps"], x[1][0]["t"]))]
         nknown = {}
         for c, names in bad:
             unknown = []
